@@ -14,12 +14,14 @@
 (***************************************************************************)
 EXTENDS Integers, FiniteSets, Sequences, TLC
 
-CONSTANTS Procs, Kind, Permits, Rounds, Depth
+CONSTANTS Procs, Kind, Permits, Rounds, Depth, Dev
+\* Dev: named wrong designs (must-fail configurations): D_foreign_release, D_sem_read_outside, D_reset_on_decorate
 \* Kind \in {"lock", "rlock", "sem"}
 VARIABLES key,      \* the cache entry: "free" / "held" (lock); [o, n] (rlock); permits left (sem)
           pc, held, rounds,
-          down      \* p has started releasing in this round (no more nested acquisitions)
-vars == <<key, pc, held, rounds, down>>
+          down,     \* p has started releasing in this round (no more nested acquisitions)
+          seen      \* (deviation D_sem_read_outside) the permits a contender read before its block
+vars == <<key, pc, held, rounds, down, seen>>
 
 Free == IF Kind = "lock" THEN "free" ELSE IF Kind = "rlock" THEN [o |-> "none", n |-> 0] ELSE Permits
 
@@ -28,6 +30,7 @@ Init == /\ key = Free
         /\ held = [p \in Procs |-> 0]          \* how many times p holds the resource
         /\ rounds = [p \in Procs |-> 0]
         /\ down = [p \in Procs |-> FALSE]
+        /\ seen = [p \in Procs |-> -1]
 
 \* one atomic cache operation / transaction block per step ------------------
 TryAcquire(p) ==
@@ -44,10 +47,26 @@ TryAcquire(p) ==
                    /\ held' = [held EXCEPT ![p] = @ + 1] /\ pc' = [pc EXCEPT ![p] = "inside"]
               ELSE UNCHANGED <<key, held, pc>>
          [] Kind = "sem" ->
-              IF key > 0
+              IF "D_sem_read_outside" \in Dev
+              THEN \* the permits were read before the block (SemRead): the block only writes read - 1
+                   IF seen[p] > 0
+                   THEN key' = seen[p] - 1 /\ held' = [held EXCEPT ![p] = 1] /\ pc' = [pc EXCEPT ![p] = "inside"]
+                   ELSE UNCHANGED <<key, held, pc>>
+              ELSE IF key > 0
               THEN key' = key - 1 /\ held' = [held EXCEPT ![p] = 1] /\ pc' = [pc EXCEPT ![p] = "inside"]
               ELSE UNCHANGED <<key, held, pc>>
+    /\ seen' = [seen EXCEPT ![p] = -1]
     /\ UNCHANGED <<rounds, down>>
+
+\* deviation D_sem_read_outside: the counter is read outside the transaction block
+SemRead(p) == /\ "D_sem_read_outside" \in Dev /\ Kind = "sem" /\ pc[p] = "idle" /\ rounds[p] < Rounds /\ seen[p] = -1
+              /\ seen' = [seen EXCEPT ![p] = key] /\ UNCHANGED <<key, pc, held, rounds, down>>
+\* deviation D_foreign_release: an RLock released by a contender that does not hold it
+ForeignRelease(p) == /\ "D_foreign_release" \in Dev /\ Kind = "rlock" /\ pc[p] = "idle" /\ key.n > 0 /\ key.o # p
+                     /\ key' = [o |-> key.o, n |-> key.n - 1] /\ UNCHANGED <<pc, held, rounds, down, seen>>
+\* deviation D_reset_on_decorate: a new contender setting itself up wipes the stored state
+Decorate(p) == /\ "D_reset_on_decorate" \in Dev /\ pc[p] = "idle" /\ rounds[p] = 0
+               /\ key' = Free /\ UNCHANGED <<pc, held, rounds, down, seen>>
 
 Release(p) ==
     /\ pc[p] = "inside"
@@ -58,6 +77,7 @@ Release(p) ==
     /\ pc' = [pc EXCEPT ![p] = IF held[p] = 1 THEN "idle" ELSE "inside"]
     /\ rounds' = [rounds EXCEPT ![p] = IF held[p] = 1 THEN @ + 1 ELSE @]
     /\ down' = [down EXCEPT ![p] = (held[p] # 1)]
+    /\ UNCHANGED seen
 
 \* releasing what is not held: RLock and BoundedSemaphore refuse (assertion), state unchanged
 BadRelease(p) ==
@@ -66,7 +86,7 @@ BadRelease(p) ==
     /\ (Kind = "sem") => ~(Permits > key) \/ TRUE
     /\ UNCHANGED vars
 
-Next == \E p \in Procs : TryAcquire(p) \/ Release(p)
+Next == \E p \in Procs : TryAcquire(p) \/ Release(p) \/ SemRead(p) \/ ForeignRelease(p) \/ Decorate(p)
 Spec == Init /\ [][Next]_vars /\ \A p \in Procs : WF_vars(Release(p)) /\ SF_vars(TryAcquire(p) /\ pc'[p] = "inside")
 
 Holders == {p \in Procs : held[p] > 0}
